@@ -122,6 +122,74 @@ def _close(a, b, exact):
     return abs(a - b) <= 2e-5 * max(1.0, abs(a), abs(b))
 
 
+# ------------------------------------------------------------------ function level (all registered functions)
+ALL_SPECS = ['params', 'params_no_bias', 'params_bit', 'ops', 'ops_no_bias', 'ops_bit', 'gap8_latency',
+             'mpic_latency', 'mpic_energy', 'ne16_latency', 'diana_latency']
+GRAD_KEYS = ['in_channels', 'out_channels', 'in_features', 'out_features', 'w_theta_alpha']
+
+
+def _all_registry_rows():
+    import plinio.cost as pc
+    out = []
+    for sname in ALL_SPECS:
+        cs = getattr(pc, sname)
+        for typ, entries in cs.data.items():
+            for constr, fn in entries:
+                out.append((sname, typ.__name__, '' if constr is None else constr.__name__, fn))
+    return out
+
+
+def _fn_case(rng, sname, ltyp, constr):
+    """A layer description as the MPS / PIT / SuperNet layers hand it over: effective sizes and the
+    per-precision share as tensors (here: leaves requiring grad), the rest plain values."""
+    dw = constr == 'conv_dw_constraint'
+    # channel counts incl. exact multiples of the hardware tiles (NE16: 32/16, gap8: 4, DIANA: 16/64)
+    cout = rng.choice([1, 3, 5, 8, 16, 24, 32, 48, 64, 96])
+    cin = cout if dw else rng.choice([1, 3, 4, 16, 32, 48])
+    theta = rng.choice([1, 1, 1 / 2, 1 / 4, 3 / 4])
+    wp = rng.choice([2, 4, 8])
+    if sname == 'diana_latency':
+        wp = rng.choice([2, 8])
+    if sname == 'ne16_latency':
+        k = 3 if dw else rng.choice([1, 3])
+    else:
+        k = rng.choice([1, 3, 5])
+    osz = rng.choice([1, 4, 8, 9])
+    d = {'in': cin, 'out': cout, 'inf': cin, 'outf': cout, 'theta': theta, 'wp': wp, 'ip': 8,
+         'groups': cin if dw else 1, 'bias': int(rng.random() < .6)}
+    if ltyp == 'Conv1d':
+        d['k'], d['osh'] = [k], [1, cout, osz]
+    elif ltyp == 'Conv2d':
+        d['k'], d['osh'] = [k, k], [1, cout, osz, osz]
+    else:
+        d['k'], d['osh'] = [], [1, cout]
+    return d
+
+
+def _fn_real(d, fn):
+    leaves = {'in_channels': torch.tensor(float(d['in']), requires_grad=True),
+              'out_channels': torch.tensor(float(d['out']), requires_grad=True),
+              'in_features': torch.tensor(float(d['inf']), requires_grad=True),
+              'out_features': torch.tensor(float(d['outf']), requires_grad=True),
+              'w_theta_alpha': torch.tensor(float(d['theta']), requires_grad=True)}
+    spec = dict(leaves)
+    spec.update({'groups': d['groups'], 'kernel_size': tuple(d['k']), 'output_shape': tuple(d['osh']),
+                 'w_precision': torch.tensor(float(d['wp'])), 'in_precision': torch.tensor(float(d['ip'])),
+                 '_parameters': {'bias': torch.zeros(1) if d['bias'] else None}})
+    v = fn(spec)
+    if not (isinstance(v, torch.Tensor) and v.requires_grad):
+        return float(v), [0.0] * 5
+    g = torch.autograd.grad(v, [leaves[k] for k in GRAD_KEYS], allow_unused=True)
+    return float(v), [0.0 if x is None else float(x) for x in g]
+
+
+def _fn_line(d, sname, fname):
+    fr = lambda v: str(Fraction(float(v)))
+    return ('fn spec=%s fn=%s in=%s out=%s inf=%s outf=%s theta=%s wp=%s ip=%s groups=%s k=[%s] osh=[%s] bias=%d'
+            % (sname, fname, fr(d['in']), fr(d['out']), fr(d['inf']), fr(d['outf']), fr(d['theta']), fr(d['wp']), fr(d['ip']),
+               fr(d['groups']), ','.join(str(x) for x in d['k']), ','.join(str(x) for x in d['osh']), d['bias']))
+
+
 # ------------------------------------------------------------------ model level (oracle)
 def _model_case(args):
     """One wrapper x cost spec on the real implementation (worker function)."""
@@ -138,7 +206,7 @@ def _model_case(args):
         out['problems'].append((key, what))
     with contextlib.redirect_stderr(io.StringIO()):
         try:
-            kind = {'pit1d': 'pit1d', 'pit2d': 'pit2d', 'sn': 'sn', 'mpsl': 'mpsl', 'mpsc': 'mpsc', 'odimo': 'mpsc'}[method]
+            kind = {'pit1d': 'pit1d', 'pit2d': 'pit2d', 'pitcat': 'pitcat', 'sn': 'sn', 'mpsl': 'mpsl', 'mpsc': 'mpsc', 'odimo': 'mpsc'}[method]
             spec = obs_models.random_spec(rng, kind=kind, dropout=False, gumbel=False, hard=False, full_cost=rng.random() < .5,
                                           discrete_cost=False, cost='single')
             net = obs_models._seed_net(spec).train()
@@ -150,7 +218,8 @@ def _model_case(args):
             from plinio.methods import PIT, SuperNet
             from plinio.methods.mps import MPS, MPSType, get_default_qinfo
             if method.startswith('pit'):
-                w = PIT(net, input_shape=shape, cost=cost_arg, full_cost=spec['full_cost'])
+                w = PIT(net, input_shape=shape, cost=cost_arg, full_cost=spec['full_cost'],
+                        exclude_names=('cx',) if method == 'pitcat' else ())
             elif method == 'sn':
                 w = SuperNet(net, input_shape=shape, cost=cost_arg, full_cost=spec['full_cost'])
             elif method == 'odimo':
@@ -208,7 +277,10 @@ def _model_case(args):
                         p.view(-1)[i] = old
                     n_fd += 1
                     gi = 0.0 if g is None else float(g.view(-1)[i])
-                    if abs(c1 - c0f) > 1e-4 * max(1.0, abs(c0f)) and gi == 0.0 and old != 0.0:
+                    # a jump of a few cycles of a rounded (ceil/floor) hardware model is not "raising the
+                    # metric" in the relaxed sense the straight-through gradient follows: demand a
+                    # change of at least 0.1% of the cost
+                    if c1 - c0f > 1e-3 * max(1.0, abs(c0f)) and gi == 0.0 and old != 0.0:
                         problem('zero-gradient-on-live-element',
                                 'NAS parameter %d element %d: cost %.6g -> %.6g when the element moves by %g, gradient exactly 0'
                                 % (pi, i, c0f, c1, step))
@@ -247,8 +319,17 @@ def _model_case(args):
                         for _, p in w.named_nas_parameters():
                             p.fill_(1.0)
                     co = float(cost())
-                    if not spec['full_cost']:
-                        ref = scratch_cost(obs_models._seed_net(spec).eval(), cs, [x[:1]])
+                    if True:
+                        ref = scratch_cost(obs_models._seed_net(spec).eval(), cs, [x[:1]],
+                                           () if spec['full_cost'] else (('cx',) if method == 'pitcat' else ()))
+                        if name is not None:      # a dictionary: the order in which metrics are evaluated must not matter
+                            cp_ = float(w.get_cost('p'))
+                            co = float(cost())
+                            refp = scratch_cost(obs_models._seed_net(spec).eval(), pc.params, [x[:1]],
+                                                () if spec['full_cost'] else (('cx',) if method == 'pitcat' else ()))
+                            if abs(cp_ - refp) > 1e-5 * max(1.0, abs(refp)):
+                                problem('open-masks!=original-model', 'discrete=%s: second metric of the dictionary (params) %.9g '
+                                        'with all masks open, original model %.9g' % (disc, cp_, refp))
                         if abs(co - ref) > 1e-5 * max(1.0, abs(ref)):
                             problem('open-masks!=original-model', 'discrete=%s: cost %.9g with all masks open, original model %.9g' % (disc, co, ref))
         except Exception as ex:
@@ -259,6 +340,7 @@ def _model_case(args):
 METHOD_COSTS = {
     'pit1d': ['params', 'params_no_bias', 'ops', 'ops_no_bias'],
     'pit2d': ['params', 'params_no_bias', 'ops', 'ops_no_bias', 'gap8_latency'],
+    'pitcat': ['params', 'ops', 'gap8_latency'],
     'sn': ['params', 'params_no_bias', 'ops', 'ops_no_bias', 'gap8_latency'],
     'mpsl': ['params_bit', 'ops_bit', 'mpic_latency', 'ne16_latency'],
     'mpsc': ['params_bit', 'ops_bit', 'mpic_latency', 'ne16_latency'],
@@ -316,6 +398,59 @@ def run(chk):
                   sample=dict(cid, value=val, grad_alpha=grads[0]) if sname == 'gap8_latency' else None)
         if not math.isfinite(val) or val < 0:
             chk.violation('C12:layer-cost-not-finite-nonneg:' + sname, 'value %r' % val, cid)
+    # ---- (a') every registered cost function: value and gradient w.r.t. the sizes / share it is shown
+    lines, reals, meta = [], [], []
+    per_fn = 12 if chk.quick else 250
+    for (sname, ltyp, constr, fn) in _all_registry_rows():
+        for _ in range(per_fn):
+            d = _fn_case(rng, sname, ltyp, constr)
+            try:
+                val, grads = _fn_real(d, fn)
+            except Exception as ex:
+                reals.append(('raises', type(ex).__name__))
+            else:
+                reals.append((val, grads))
+            lines.append(_fn_line(d, sname, fn.__name__))
+            meta.append((d, sname, fn.__name__))
+    for (d, sname, fname), real, ans in zip(meta, reals, chk.driver('C12', lines)):
+        cid = dict(d, kind_='fn', spec=sname, fn=fname)
+        toks = dict(t.split('=', 1) for t in ans.split()) if not ans.startswith(('err', 'bad')) else {}
+        if real[0] == 'raises':
+            chk.corr(cid, 'raises', 'raises' if toks.get('ok') == '0' else 'ok=%s (%s)' % (toks.get('ok'), ans[:60]),
+                     'registered cost function rejects the description')
+            chk.count(('fn', sname, fname, str(d)), bucket='fn:%s:rejected' % sname)
+            continue
+        val, grads = real
+        if not toks:
+            chk.corr(cid, 'evaluates', ans, 'generated cost function missing in the registry')
+            continue
+        mv = float(Fraction(toks['v']))
+        mg = [float(Fraction(x)) for x in toks['d'].strip('[]').split(',')]
+        tol = lambda a, b: abs(a - b) <= 2e-5 * max(1.0, abs(a), abs(b))
+        same = toks.get('ok') == '1' and tol(val, mv) and all(tol(a, b) for a, b in zip(grads, mg))
+        chk.corr(cid, 'same' if same else 'v=%r d=%r' % (val, grads), 'same' if same else 'ok=%s v=%r d=%r' % (toks.get('ok'), mv, mg),
+                 'value and autograd gradient (d in_channels, out_channels, in_features, out_features, w_theta_alpha) of %s.%s' % (sname, fname))
+        chk.count(('fn', sname, fname, str(d)), nontrivial=any(g != 0 for g in grads), bucket='fn:%s' % sname,
+                  sample=dict(cid, value=val, grads=grads) if sname == 'ne16_latency' and d['out'] in (32, 64) else None)
+        # the gradient clause on the real function: an increase of the share / of the output width that raises
+        # the metric must have a non-zero gradient (finite-difference witness)
+        for key, gi, step in (('theta', 4, 1 / 64), ('out', 1, 1 / 2), ('outf', 3, 1 / 2)):
+            d2 = dict(d)
+            d2[key] = d[key] + step
+            try:
+                v2, _ = _fn_real(d2, getattr(__import__('plinio.cost.' + sname, fromlist=[fname]), fname))
+            except Exception:
+                continue
+            # charged cost = value x share for the bit-aware models; compare the product for theta
+            a, b = (val * d['theta'], v2 * d2['theta']) if key == 'theta' else (val, v2)
+            g_eff = (grads[4] * d['theta'] + val) if key == 'theta' else grads[gi]
+            if b > a + 1e-3 * max(1.0, abs(a)) and g_eff == 0.0 and grads[gi] == 0.0 and key != 'theta':
+                chk.violation('C12:zero-gradient-on-live-size:%s' % sname,
+                              '%s.%s: cost %.6g -> %.6g when %s grows by %g, gradient exactly 0' % (sname, fname, a, b, key, step), cid)
+            if key == 'theta' and b > a + 1e-3 * max(1.0, abs(a)) and g_eff == 0.0:
+                chk.violation('C12:zero-gradient-on-live-share:%s' % sname,
+                              '%s.%s: charged cost %.6g -> %.6g when the precision share grows by %g, gradient of share x cost exactly 0'
+                              % (sname, fname, a, b, step), cid)
     # ---- (b) wrappers
     per = 2 if chk.quick else 25
     if chk.proof_broken or chk.corr_disagreements:
